@@ -17,7 +17,7 @@ RULE = ('(i) round trip rdkit_to_networkx(networkx_to_rdkit(G)) on generator mol
         'conformer every node carries a finite 3D position. (ii) embed_3d_via_rdkit(G) on resolver outputs and shuffled '
         'copies, and embedd_cg_molecule_via_rdkit (one call) on single molecules and on systems of 2-3 unconnected molecules '
         'with atoms shared between fragments: every node has a finite position and every bond of G has a length within '
-        '[0.70, 1.25] x (sum of covalent radii). (iii) forward_map_molecule on resolver outputs with annotated / random positive weights and synthetic '
+        '[0.70, 1.25] x (sum of covalent radii). (iii) forward_map_molecule on resolver outputs (cut molecules, virtual particles, periodic copolymers with one fragment name on several beads) with annotated / random positive weights and synthetic '
         'positions: bead = sum(w x)/sum(w) over exactly the nodes of the bead\'s graph, and translating all atoms by t '
         'moves every bead by t. Inputs are restricted to molecules on which RDKit\'s aromaticity perception agrees with the '
         'generator\'s and that RDKit sanitises; embedding failures are counted, not judged. distinct = (sub-check, feature '
@@ -49,7 +49,13 @@ def cases(seed, tier, shard, nshards):
                                                p_het5=(0.35 if what == 'round' and rng.random() < 0.4 else 0.0)))
             if c is not None and (what != 'embed' or unstrained(c)):
                 break
-        if what == 'fmap' and rng.random() < 0.3:
+        if what == 'fmap' and rng.random() < 0.2:
+            # polymers: the SAME fragment name on several beads, whose atoms differ in number (chain ends carry one more
+            # hydrogen) and in weight - every bead is normalised by the weights of its own atoms
+            pc = MC.random_periodic_case(rng)
+            if pc is not None:
+                c = dict(pc, features=sorted(set(pc['features']) | {'same_fragment_name_on_several_beads'}))
+        elif what == 'fmap' and rng.random() < 0.3:
             # fragment-less nodes with several real neighbours (virtual particles): the real beads keep their own average
             v = MC.add_virtual(rng, c, n_virtual=rng.choice([1, 2]), n_zero_edges=rng.choice([1, 3]))
             if v is not None:
